@@ -214,7 +214,7 @@ class MergerConfig:
             # This node may be a child of one of the registered keys.  That
             # registered key's node will match this node's parent.
             for eval_nc, eval_key in self.keys.items():
-                if node_coord.parent == eval_nc.node:
+                if node_coord.parent is eval_nc.node:
                     merge_key = eval_key
                     break
         if not merge_key and len(data.keys()) > 0:
@@ -391,9 +391,12 @@ class MergerConfig:
         if self.config is None:
             return ""
 
+        # The rules were gathered from the very document being merged, so a
+        # configured node is the queried node only when both are the same
+        # object at the same place; equal data elsewhere is another node.
         for rule_coord, rule_config in section.items():
-            if rule_coord.node == node_coord.node \
-                    and rule_coord.parent == node_coord.parent \
+            if rule_coord.node is node_coord.node \
+                    and rule_coord.parent is node_coord.parent \
                     and rule_coord.parentref == node_coord.parentref:
                 return str(rule_config)
 
